@@ -391,7 +391,16 @@ func (x *Exec) copyOp(fr *Frame, st *State, d, s Value, rt types.Type) Value {
 		c := x.comp(st, fam, et, j)
 		content := Select(c, dp.base)
 		var ncontent *Term
-		if n.IsLit && n.Val.Int64() <= 8 && !sIsStr {
+		if dp.ln.IsLit && dp.ln.Val.Int64() <= 8 && !sIsStr && !n.IsLit {
+			// small destination of known length: element-wise, no quantifier
+			sarr := Select(c, sl(s).base)
+			ncontent = content
+			for k := int64(0); k < dp.ln.Val.Int64(); k++ {
+				di := BVBin("bvadd", dp.off, BVLit64(k, 64))
+				e := Ite(BVCmp("bvult", BVLit64(k, 64), n), Select(sarr, BVBin("bvadd", sl(s).off, BVLit64(k, 64))), Select(content, di))
+				ncontent = Store(ncontent, di, e)
+			}
+		} else if n.IsLit && n.Val.Int64() <= 8 && !sIsStr {
 			sarr := Select(c, sl(s).base)
 			ncontent = content
 			for k := int64(0); k < n.Val.Int64(); k++ {
